@@ -33,7 +33,7 @@ def fitsTriviallyR (S : Schema) (rf rt : RPos) (sl : Slice) : Option Bool :=
   else some false
 
 /-- `fits_trivially(doc.resolve(f), doc.resolve(t), slice)` -/
-def fitsTrivially (S : Schema) (doc : Node) (f t : Nat) (sl : Slice) : Option Bool :=
+def fitsTriviallyO (S : Schema) (doc : Node) (f t : Nat) (sl : Slice) : Option Bool :=
   match doc.resolve f, doc.resolve t with
   | some rf, some rt => fitsTriviallyR S rf rt sl
   | _, _ => none
@@ -50,7 +50,7 @@ deriving Repr, DecidableEq
 def replaceStepTrivial (S : Schema) (doc : Node) (f t : Nat) (sl : Slice) : Option TrivialPlan :=
   if f == t && sl.size == 0 then some .noStep
   else
-    match fitsTrivially S doc f t sl with
+    match fitsTriviallyO S doc f t sl with
     | none => none
     | some true => some (.step (.replace f t sl false))
     | some false => some .needsFitter
